@@ -55,6 +55,9 @@ func (b *gateBus) Publish(ev pubsub.Event) error {
 	return b.Bus.Publish(ev)
 }
 
+// deadSeen: a ticker of the kind was already found dead in this process.
+var deadSeen = map[string]bool{}
+
 type answer struct {
 	Name string `json:"name"`
 	Err  bool   `json:"err"`
@@ -449,8 +452,8 @@ func (w *balWorld) finishRun(answers map[string]answer) {
 	}
 	if !w.stopReq && !w.stopped {
 		for _, what := range []string{"P", "W"} {
-			if !has(w.plan.Fires, what) {
-				continue
+			if !has(w.plan.Fires, what) || deadSeen[what] {
+				continue // (one witness of a dead ticker is enough: each costs the full probe wait)
 			}
 			// answer whatever is in flight so that the ticker in question is (or will be) running, then wait for its next tick
 			kind, hook := "query", "tick"
@@ -486,6 +489,7 @@ func (w *balWorld) finishRun(answers map[string]answer) {
 			w.drain()
 			if !ok {
 				w.write(line{"k": "dead", "what": what})
+				deadSeen[what] = true
 			}
 		}
 		w.env(op{Op: "stop"}, nil)
